@@ -178,6 +178,9 @@ def apply(st_, op):
             raise Skip()
         usage = keykit.sub_usage(skid)
         sub = keypool.pgpy_key(wire.build_packet(5, keypool.secret_body(skid)))
+        if op[3] % 3 == 1 and keypool.entry(skid)['alg'] in (1, 17, 19, 22):
+            # the key that becomes a subkey is a complete key of its own (it has an identity): none of that belongs to the new primary
+            sub.add_uid(pgpy.PGPUID.new('Former Owner of %s' % skid), usage=_flagset(0x03), created=utc(BASE - 50))
         st_.clock += 1
         with unlocked(key, m):
             if m.protected:
